@@ -46,7 +46,8 @@ TNext ==
     \/ Is("step") /\ (IF \E c \in Conns : att[c].must /\ ~att[c].late /\ att[c].st = "pending" THEN Tick ELSE Same)
     \/ Is("quiet") /\ (IF quiet THEN Same ELSE Quiet)
     \/ Is("partition") /\ Partition(LinkHost, How(Pairs(E.dirs)))
-    \/ Is("repair") /\ Repair(LinkHost)
+    \/ Is("repair") /\ (IF part[LinkHost] # "none" THEN Repair(LinkHost)
+                         ELSE P_Repair(Pairs(E.dirs)) /\ UNCHANGED <<mivars, last>>)
     \/ Is("syn_arrive") /\ Same
     \/ Is("bind") /\ Bind(E.p, E.kind) /\ last'.res = E.res
     \/ Is("drop_listener") /\ DropListener(E.p)
@@ -64,6 +65,7 @@ TNext ==
     \/ Is("count") /\ EntCount(E.h) = E.n /\ Same
     \/ TDeliver
     \/ Is("panic") /\ P_Flag("NoPanic") /\ UNCHANGED <<mivars, last>>
+    \/ Is("overdue") /\ P_Overdue(SetOf(E.cs)) /\ UNCHANGED <<mivars, last>>
 
 TSpec == TInit /\ [][TNext]_<<vars, l>>
 
